@@ -42,6 +42,7 @@ def walk_local(node: ast.AST, include_root: bool = True) -> tp.Iterator[ast.AST]
     while stack:
         n = stack.pop()
         if not first and isinstance(n, SCOPE_TYPES):
+            yield n          # the nested scope itself is visible (a def statement / lambda expression), its body is not
             continue
         if include_root or not first:
             yield n
